@@ -15,7 +15,7 @@ class RoundTripUnit(Unit):
         'Kani does not prove termination (all generated functions involved are loop-free; std string loops are bounded by the name length)',
     )
     def corpus(self, ctx):
-        progs = corpus.corpus_parse(ctx.tier, ctx.seed)
+        progs = [p for p in corpus.corpus_parse(ctx.tier, ctx.seed) if 'overlap' not in p.tags]   # C02's domain: non-overlapping spellings
         for p in progs:
             p.derives = ['EnumString', 'Display', 'AsRefStr', 'IntoStaticStr', 'EnumMessage']
         return progs
